@@ -545,17 +545,21 @@ impl NameResolution {
             ..
         } = func;
         let mut env = ResolveLocalEnv::new();
-        for param in params {
-            env.add(&param.0, self.fresh_name(&param.0.0, hir_table));
-        }
+        // every parameter is a binder of its own: a later one shadows an earlier one of the
+        // same name, as with closure parameters, pattern variables and consecutive lets
+        let param_ids: Vec<hir::LocalId> = params
+            .iter()
+            .map(|param| {
+                let local_id = self.fresh_name(&param.0.0, hir_table);
+                env.add(&param.0, local_id);
+                local_id
+            })
+            .collect();
         let tparams = type_param_set(generics);
         let new_params = params
             .iter()
-            .map(|param| {
-                let local_id = env.rfind(&param.0).unwrap_or_else(|| {
-                    self.ice(format!("missing local id for param {}", param.0.0));
-                    self.fresh_name(&param.0.0, hir_table)
-                });
+            .zip(param_ids)
+            .map(|(param, local_id)| {
                 (
                     local_id,
                     self.lower_type_expr(&param.1, &tparams, ctx.current_package, ctx.imports),
